@@ -6,6 +6,8 @@ import (
 	"encoding/binary"
 	"io"
 	"io/ioutil"
+	"runtime"
+	"runtime/debug"
 	"time"
 
 	. "vh/lib"
@@ -74,6 +76,10 @@ func (d *deferredWriter) WriteMpegtsFrame(f *mpegts.Frame) error {
 	d.kept = append(d.kept, *f)
 	return nil
 }
+
+type scriptedWriter func(p []byte)
+
+func (s scriptedWriter) Write(p []byte) (int, error) { s(p); return len(p), nil }
 
 func readSeg(r io.Reader) []byte {
 	b, _ := ioutil.ReadAll(r)
@@ -310,6 +316,153 @@ func init() {
 			poll()
 		}
 		return L(I(0), L(segs...))
+	}
+
+	// ((frames of writer 0) (frames of writer 1) ...) ((a n b) ...)) -> (out0 out1 ...).
+	// Several real mpegts.Writers, each on a scripted io.Writer.  Trigger (a n b): when writer a hands
+	// its n-th TS packet to its io.Writer, writer b writes its next frame right there, i.e. between two
+	// packets of a's frame (same goroutine, so the same P: sync.Pool hands b the buffer a put back
+	// last, if a put one back).  Afterwards the remaining frames are written round robin.
+	commands["C09_writers"] = func(c Val) Val {
+		old := debug.SetGCPercent(-1) // a GC cycle would empty the pool
+		defer func() { debug.SetGCPercent(old); runtime.GC() }()
+		prevP := runtime.GOMAXPROCS(1)
+		defer runtime.GOMAXPROCS(prevP)
+		type wr struct {
+			w      *mpegts.Writer
+			out    bytes.Buffer
+			frames []*mpegts.Frame
+			next   int
+			npk    int
+			busy   bool
+			trig   map[int][]int
+		}
+		var all []*wr
+		var writeNext func(b int)
+		for _, fl := range c.At(0).List() {
+			x := &wr{trig: map[int][]int{}}
+			for _, f := range fl.List() {
+				x.frames = append(x.frames, mpegts.VerifNewFrame(int(f.At(0).Int()), int(f.At(1).Int()), f.At(2).Int(), f.At(3).Int(),
+					f.At(4).Bytes(), f.At(5).Bytes(), f.At(6).Bool()))
+			}
+			all = append(all, x)
+		}
+		for _, t := range c.At(1).List() {
+			a, n, b := int(t.At(0).Int()), int(t.At(1).Int()), int(t.At(2).Int())
+			if a >= 0 && a < len(all) && b >= 0 && b < len(all) && a != b {
+				all[a].trig[n] = append(all[a].trig[n], b)
+			}
+		}
+		writeNext = func(b int) {
+			x := all[b]
+			if x.busy || x.next >= len(x.frames) {
+				return
+			}
+			f := x.frames[x.next]
+			x.next++
+			x.busy = true
+			x.w.WriteMpegtsFrame(f)
+			x.busy = false
+		}
+		for i, x := range all {
+			x := x
+			w, err := mpegts.NewWriter(scriptedWriter(func(p []byte) {
+				x.out.Write(p)
+				if len(p) == 188 {
+					x.npk++
+					for _, b := range x.trig[x.npk] {
+						writeNext(b)
+					}
+				}
+			}))
+			if err != nil {
+				return Panic("NewWriter: " + err.Error())
+			}
+			all[i].w = w
+		}
+		for more := true; more; {
+			more = false
+			for i, x := range all {
+				if x.next < len(x.frames) {
+					writeNext(i)
+					more = true
+				}
+			}
+		}
+		outs := []Val{}
+		for _, x := range all {
+			outs = append(outs, B(x.out.Bytes()))
+		}
+		return L(outs...)
+	}
+
+	// ((hls case A) (hls case B)) -> (0 (segments A) (segments B)): two streams, each with its own
+	// packetizers and hls.SegmentGenerator, fed alternately (they share the mpegts scratch-buffer
+	// pool and the hls segment-buffer pool)
+	commands["C09_hls2"] = func(c Val) (out Val) {
+		defer func() {
+			if r := recover(); r != nil {
+				out = L(I(1))
+			}
+		}()
+		type st struct {
+			pl     *hls.Playlist
+			sg     *hls.SegmentGenerator
+			vm     *codec.VideoMeta
+			vp, ap mpegts.Packetizer
+			evs    []Val
+			pos    int
+			next   int
+			segs   []Val
+		}
+		var ss []*st
+		for i := 0; i < 2; i++ {
+			cc := c.At(i)
+			x := &st{pl: hls.NewPlaylist(), evs: cc.At(4).List(), next: 1}
+			sg, err := hls.NewSegmentGenerator(x.pl, "/c09-"+string(rune('a'+i)), int(cc.At(5).Int()), "", int(cc.At(6).Int()), nil)
+			if err != nil {
+				return Panic("NewSegmentGenerator: " + err.Error())
+			}
+			x.sg = sg
+			x.vm = &codec.VideoMeta{Codec: "H264", Sps: cc.At(1).Bytes(), Pps: cc.At(2).Bytes()}
+			x.vp = mpegts.NewH264Packetizer(x.vm, sg)
+			x.ap = mpegts.NewAacPacketizer(&codec.AudioMeta{Codec: "AAC", Sps: cc.At(3).Bytes()}, sg)
+			ss = append(ss, x)
+		}
+		for more := true; more; {
+			more = false
+			for _, x := range ss {
+				if x.pos >= len(x.evs) {
+					continue
+				}
+				more = true
+				f := x.evs[x.pos]
+				x.pos++
+				if isSet(f) {
+					applySet(x.vm, f)
+					continue
+				}
+				fr := toFrame(f)
+				if fr.MediaType == codec.MediaTypeVideo {
+					x.vp.Packetize(fr)
+				} else {
+					x.ap.Packetize(fr)
+				}
+				for {
+					r, _, err := x.pl.Segment(x.next)
+					if err != nil {
+						break
+					}
+					x.segs = append(x.segs, B(readSeg(r)))
+					x.next++
+				}
+			}
+		}
+		for _, x := range ss {
+			x.sg.Close()
+			x.pl.Close()
+		}
+		return L(I(0), L(ss[0].segs...), L(ss[1].segs...))
 	}
 
 	// (config n) -> (0 header) | (1): AudioSpecificConfig.Decode then ToAdtsHeader(n)
